@@ -378,6 +378,15 @@ def rule_r4(ctx) -> RuleResult:
     st = {"leading_slash": True, "dotdot": True, "double_slash": True, "ctrl": True, "suffix_lua": False}
     seen_ops = []
     body_if = [s for s in fn.body if isinstance(s, ast.If) and unparse(s.test) == "data is None"]
+    if not body_if:
+        # guard-clause form: `if data is not None: return data` followed by the sanitiser at function level
+        for i_, s_ in enumerate(fn.body):
+            if isinstance(s_, ast.If) and unparse(s_.test) == "data is not None" and not s_.orelse and s_.body \
+                    and isinstance(s_.body[-1], ast.Return):
+                pseudo = ast.If(test=ast.parse("data is None", mode="eval").body, body=list(fn.body[i_ + 1:]), orelse=[])
+                ast.copy_location(pseudo, s_)
+                body_if = [pseudo]
+                break
     if len(body_if) != 1:
         raise AnalysisError("lua_loader: `if data is None` block vanished")
     mod_tree = ctx.index.mod("luaexec").tree
